@@ -4,7 +4,7 @@
 (*                                                                         *)
 (* A Fix number is a record [s |-> 1 | -1, d |-> <<d1, ..., dW>>] whose    *)
 (* value is  s * SUM_i d[i] * B^(i-1-NF)  with B = 10^4, NF = 4 fraction   *)
-(* limbs (resolution 1e-16) and W - NF = 7 integer limbs (range 1e28).     *)
+(* limbs (resolution 1e-16) and W - NF = 9 integer limbs (range 1e36).     *)
 (* d[1] is the LEAST significant limb.  Zero always carries s = 1.         *)
 (*                                                                         *)
 (* Everything a trace specification needs to relate observed floating      *)
@@ -16,7 +16,7 @@ EXTENDS Integers, Sequences
 
 B  == 10000
 NF == 4
-W  == 11
+W  == 13
 Limbs == 1..W
 
 ZeroMag == [i \in Limbs |-> 0]
@@ -70,28 +70,34 @@ Min(a, b) == IF Le(a, b) THEN a ELSE b
 Max(a, b) == IF Ge(a, b) THEN a ELSE b
 
 \* ---- multiplication ---------------------------------------------------------
-\* column sums of the schoolbook product; each term < 1e8, at most W terms
-Col(a, b, k) ==         \* k in 1..2W-1 ; sum over i+j = k+1
-  LET lo == IF k - W + 1 > 1 THEN k - W + 1 ELSE 1
-      hi == IF k < W THEN k ELSE W
-      RECURSIVE S(_)
-      S(i) == IF i > hi THEN 0 ELSE a[i] * b[k + 1 - i] + S(i + 1)
-  IN S(lo)
-
-RECURSIVE MulC(_, _, _, _)
-MulC(a, b, k, c) ==     \* limbs 1..2W of the full product
-  IF k > 2 * W THEN <<>>
-  ELSE LET t == (IF k <= 2 * W - 1 THEN Col(a, b, k) ELSE 0) + c IN
-       <<t % B>> \o MulC(a, b, k + 1, t \div B)
-
-TopLimb(d) == IF d = ZeroMag THEN 0 ELSE MaxOf({i \in Limbs : d[i] # 0})
+\* schoolbook product restricted to the non-zero limb ranges of the operands
+\* (small integers and short decimals touch one or two limbs); each term < 1e8,
+\* at most W terms per column, so every partial sum stays below 2^31
+MinOf(S) == CHOOSE m \in S : \A x \in S : m <= x
+NZ(d) == {i \in Limbs : d[i] # 0}
 
 Mul(a, b) ==
   IF IsZero(a) \/ IsZero(b) THEN Zero
-  ELSE LET p == MulC(a.d, b.d, 1, 0)
-           d == [i \in Limbs |-> p[i + NF]]
-       IN \* overflow beyond W limbs is a machinery error, made visible
-          IF \E i \in (W + NF + 1)..(2 * W) : p[i] # 0
+  ELSE LET la == MinOf(NZ(a.d))  ta == MaxOf(NZ(a.d))
+           lb == MinOf(NZ(b.d))  tb == MaxOf(NZ(b.d))
+           k0 == la + lb - 1                    \* lowest / highest non-zero column (1-based, i+j-1)
+           k1 == ta + tb - 1
+           ColSum(k) ==                         \* sum over i + j - 1 = k
+             LET lo == IF k + 1 - tb > la THEN k + 1 - tb ELSE la
+                 hi == IF k + 1 - lb < ta THEN k + 1 - lb ELSE ta
+                 RECURSIVE S(_)
+                 S(i) == IF i > hi THEN 0 ELSE a.d[i] * b.d[k + 1 - i] + S(i + 1)
+             IN S(lo)
+           \* carry propagation from column k0 upward; returns the limbs k0 .. k1+2 as a function
+           RECURSIVE Carry(_, _)
+           Carry(k, c) == IF k > k1 + 2 THEN <<>>
+                          ELSE LET t == (IF k <= k1 THEN ColSum(k) ELSE 0) + c
+                               IN <<t % B>> \o Carry(k + 1, t \div B)
+           cs == Carry(k0, 0)                   \* cs[j] is limb k0 + j - 1 of the full product
+           Full(k) == IF k < k0 \/ k > k1 + 2 THEN 0 ELSE cs[k - k0 + 1]
+           d == [i \in Limbs |-> Full(i + NF)]
+       IN \* overflow beyond W limbs is a machinery error, made visible (s = 0 is not a Fix)
+          IF \E k \in (W + NF + 1)..(k1 + 2) : Full(k) # 0
           THEN [s |-> 0, d |-> ZeroMag]
           ELSE Norm(a.s * b.s, d)
 Sq(a) == Mul(a, a)
